@@ -121,15 +121,20 @@ func (c *Ctx) compareRules() {
 		if !ok || identObj(info, sel.X) != ref {
 			continue
 		}
-		conds, okc := c.pathConds(info, fi.Decl.Body, call, false)
-		pos := 0
-		for _, cd := range conds {
-			if cd.Expr != nil && !cd.Neg {
-				pos++
+		// the call sits in a top-level statement of the function: a plain statement, or the
+		// initialiser of a top-level `if err = f(); err != nil` (never an else branch)
+		for _, s := range fi.Decl.Body.List {
+			if !nodeContains(s, call.Pos()) {
+				continue
 			}
-		}
-		if okc && pos == 0 {
-			ok1 = true
+			switch x := s.(type) {
+			case *ast.ExprStmt, *ast.AssignStmt:
+				ok1 = true
+			case *ast.IfStmt:
+				if x.Init != nil && nodeContains(x.Init, call.Pos()) {
+					ok1 = true
+				}
+			}
 		}
 	}
 	c.Check(ok1, "PATH", key, fi.Decl.Pos(), "refTree.ReinitIndexes() runs unconditionally before any comparison", "the reference tree is not unconditionally re-indexed with ReinitIndexes before the comparison: a reference whose tips changed since it was last indexed is compared with stale tip ranks (wrong counts, same-taxa trees rejected)").Clause = clause
